@@ -1,6 +1,11 @@
 SPECIFICATION Spec
 CONSTANTS
   Fault = "echoPayload"
+  KeyRegime = "mock"
+  CheckSrcHost = TRUE
+  MaxDatagrams = 1
+  CIAs <- CIAs1
+  CHosts <- CHosts1
   KeepPathType = FALSE
   Modes <- ModesAll
   ULs <- ULsAll
